@@ -11,6 +11,8 @@ N == Len(R)
 VARIABLES c, i
 vars == <<c, i>>
 
+Asymmetric(m) == LET cls == Classes(m) IN \A x, y \in Nodes(m) : x # y => cls[x] # cls[y]
+ClassOfNumber(m) == LET cls == Classes(m) IN [n \in { m.atoms[k].n : k \in Nodes(m) } |-> cls[CHOOSE k \in Nodes(m) : m.atoms[k].n = n]]
 Pre(r, k) == IF k = 1 THEN r.s0 ELSE r.steps[k - 1].st
 HistVerdict(r) ==
   UNION { StepLaws(Pre(r, k), r.steps[k]) : k \in 1..Len(r.steps) }
@@ -20,7 +22,7 @@ HistVerdict(r) ==
         THEN UNION { IF r.steps[k].exc # "" \/ r.tsteps[k].exc # "" THEN If(r.steps[k].exc # r.tsteps[k].exc, r.steps[k].op \o ":outcome-depends-on-numbering")
                      ELSE IF r.steps[k].op = "tautomers"
                           THEN If({ r.steps[k].forms[j].s : j \in 1..Len(r.steps[k].forms) } # { r.tsteps[k].forms[j].s : j \in 1..Len(r.tsteps[k].forms) }, "tautomers:set-depends-on-numbering")
-                          ELSE If(~Equivariant(r.f, r.steps[k].st, r.tsteps[k].st), r.steps[k].op \o ":result-depends-on-numbering") : k \in 1..Len(r.steps) }
+                          ELSE If(~Equivariant(r.f, r.steps[k].st, r.tsteps[k].st, Asymmetric(r.dom), ClassOfNumber(r.dom)), r.steps[k].op \o ":result-depends-on-numbering") : k \in 1..Len(r.steps) }
         ELSE {})
 DocVerdict(r) == If(r.same # 1, "documented-spelling-is-not-produced")
 Verdict(r) == IF r.kind = "doc" THEN DocVerdict(r) \cup HistVerdict(r) ELSE HistVerdict(r)
